@@ -1,6 +1,7 @@
 (* C01 — generated parsers implement the PEG semantics of their grammar (partial). *)
 From Coq Require Import List String NArith Bool Arith.
-From Pegen Require Import Base.StrUtil Base.Values Grammar.Ast Runtime.Tokenizer Sem.Peg Proofs.PegProofs.
+From Pegen Require Import Base.StrUtil Base.Values Grammar.Ast Runtime.Tokenizer Sem.Peg Sem.PegEval Proofs.PegProofs
+  Proofs.PegEvalSound.
 Import ListNotations.
 Open Scope string_scope.
 
@@ -21,3 +22,22 @@ Theorem C01_match_never_moves_backwards :
   peg_item K rs toks kw soft aeval item_name forced_msg i p (PSucc v p') -> p <= p'.
 Proof. intros K rs toks kw soft aeval item_name forced_msg i p v p' H. exact (peg_item_mono K rs toks kw soft aeval item_name forced_msg i p _ H v p' eq_refl). Qed.
 Print Assumptions C01_match_never_moves_backwards.
+
+(* The evaluator that every run executes inside Coq on each explored (grammar, input) and compares
+   with the real generated parser is SOUND for the reference semantics: whatever it returns for the
+   start rule is derivable in the relation (instantiated with the documented naming convention
+   [ev_names] and with actions evaluated by [aeval_str] over the named items and the span), and by
+   determinism it is the ONLY outcome the semantics allows.  So "real parser = evaluator" on a case
+   is "real parser = the reference semantics" on that case. *)
+Theorem C01_evaluator_sound :
+  forall K rs toks kw soft aeval_str fuel start r,
+  peg_eval K rs toks kw soft aeval_str fuel start = Some r ->
+  peg_item K rs toks kw soft (ev_aeval K toks aeval_str) ev_names forced_text (NameLeaf start) 0 r
+  /\ forall r', peg_item K rs toks kw soft (ev_aeval K toks aeval_str) ev_names forced_text (NameLeaf start) 0 r' -> r' = r.
+Proof.
+  intros K rs toks kw soft aeval_str fuel start r H. unfold peg_eval in H.
+  destruct (ev K rs toks kw soft aeval_str fuel (GItem (NameLeaf start) 0)) as [[r0| |]|] eqn:E; try discriminate.
+  injection H as <-. pose proof (ev_sound K rs toks kw soft aeval_str _ _ _ E) as Hs. cbn [sound] in Hs.
+  split; [exact Hs|]. intros r' H'. exact (peg_item_det K rs toks kw soft _ _ _ _ _ _ H' _ Hs).
+Qed.
+Print Assumptions C01_evaluator_sound.
